@@ -616,6 +616,15 @@ impl ElementRaw {
                                 version: target_version,
                             });
                         }
+                        // an enum value may not exist in the target version
+                        if !elemtype
+                            .chardata_spec()
+                            .is_none_or(|spec| cdata.check_version_compatibility(spec, target_version).0)
+                        {
+                            return Err(AutosarDataError::VersionIncompatibleData {
+                                version: target_version,
+                            });
+                        }
                         copy.content.push(ElementContent::CharacterData(cdata.clone()));
                     }
                 }
